@@ -120,13 +120,17 @@ def gen_docs(run):
 
 
 def shrink(src, case):
-    """greedy block removal keeping a mismatch of the same kind"""
+    """greedy removal of blocks, then of single lines of list blocks, keeping a mismatch of the same kind"""
     doc = case["doc"]
     kind = case["kind"]
-    for _round in range(6):
+    for _round in range(12):
         cands = []
-        for i in range(len(doc)):
-            d2 = doc[:i] + doc[i + 1:]
+        variants = [doc[:i] + doc[i + 1:] for i in range(len(doc))]
+        if len(doc) <= 3:
+            for i, b in enumerate(doc):
+                if b[0] == "list" and len(b[1]) > 1:
+                    variants += [doc[:i] + [("list", b[1][:j] + b[1][j + 1:])] + doc[i + 1:] for j in range(len(b[1]))]
+        for i, d2 in enumerate(variants):
             if d2:
                 cands.append({"id": i, "doc": d2, "raw": G.serialise(_FixedRng(), d2), "lang": case["lang"]})
         if not cands:
@@ -197,7 +201,8 @@ def sx_doc(doc, ids):
         elif k == "p":
             out.append("(11 %s)" % " ".join("(%s)" % sx_inl(ln, ids) for ln in b[1]))
         elif k == "list":
-            out.append("(12 %s)" % " ".join("((%s) %s)" % (" ".join(str(ord(ch)) for ch in p), sx_inl(inl, ids)) for p, inl in b[1]))
+            out.append("(12 %s)" % " ".join("((%s) (%s)%s)" % (" ".join(str(ord(ch)) for ch in p), sx_inl(inl, ids),
+                                                                 "" if d is None else " (%s)" % sx_inl(d, ids)) for p, inl, d in b[1]))
         elif k == "table":
             rows = []
             for row in b[1]:
@@ -294,10 +299,17 @@ def proofs(run, src, docs):
     for _ in range(1500 if quick else 20000):
         k = rng.randint(1, 8)
         lsets.append(["".join(rng.choice("*#:;") for _ in range(rng.randint(1, 4))) for _ in range(k)])
+    # lines with a top-level colon ("; term : description" and colons after other prefixes): a trailing "+" marks them
+    for ln in range(1, 4 if quick else 5):
+        for t in itertools.product([";+", ";", "*;+", ";;+", ":;+", ";*+", ":+", ";*", "*+"], repeat=ln):
+            lsets.append(list(t))
+    for _ in range(1500 if quick else 20000):
+        k = rng.randint(1, 8)
+        lsets.append(["".join(rng.choice("*#:;;") for _ in range(rng.randint(1, 4))) + rng.choice(["", "+"]) for _ in range(k)])
     for i, ps in enumerate(lsets):
-        cases.append({"id": i, "k": "L", "lines": [[p, j + 1] for j, p in enumerate(ps)]})
+        cases.append({"id": i, "k": "L", "lines": [[p.rstrip("+"), 2 * j + 1] + ([2 * j + 2] if p.endswith("+") else []) for j, p in enumerate(ps)]})
     res = _units(src, cases)
-    mlines = "".join("L" + " ".join("((%s) %d)" % (" ".join(str(ord(ch)) for ch in p), w) for p, w in c["lines"]) + "\n" for c in cases)
+    mlines = "".join("L" + " ".join("((%s) %s)" % (" ".join(str(ord(ch)) for ch in ln[0]), " ".join(map(str, ln[1:]))) for ln in c["lines"]) + "\n" for c in cases)
     out = subprocess.run([exe], input=mlines, capture_output=True, text=True, timeout=1800).stdout.splitlines()
     dis = []
     for c, o in zip(cases, out):
@@ -307,13 +319,15 @@ def proofs(run, src, docs):
         except ValueError:
             m = o
         if m != real:
-            dis.append("lines %r: real %s | den_list %s" % ([p for p, _ in c["lines"]], json.dumps(real)[:300], str(o)[:300]))
-    run.tie("ParseLines: real pass on prefixed line token lists vs extracted den_list (the denoted prefix tree)", len(cases), dis)
+            dis.append("lines %r: real %s | den_list %s" % ([ln[0] + ("+" if len(ln) > 2 else "") for ln in c["lines"]], json.dumps(real)[:300], str(o)[:300]))
+    run.tie("ParseLines: real pass on prefixed line token lists (with and without a top-level colon) vs extracted den_list "
+            "(the denoted prefix tree)", len(cases), dis)
 
 
 def check(run):
     run.rule = ("documents from the recursive grammar of vt/harness/c02_gen.py (sections of levels 1-6 in random order, paragraphs, "
-                "nested * # ; : lists with prefix changes, tables with header/data cells holding inline text or blocks (lists, nested "
+                "nested * # ; : lists with prefix changes and one-line definition items '; term : description' (terms plain, bold, italic, "
+                "bold-italic, nested styles incl. runs of five apostrophes, links, refs), tables with header/data cells holding inline text or blocks (lists, nested "
                 "tables), pre lines, bold/italic as quotes or <b>/<strong>/<i>/<em>, internal links with/without label, external "
                 "links, refs), serialised with random equivalent spellings (spaces after markers, optional blank lines, || vs "
                 "newline cells, attributes); unique words as leaves; one of the 12 languages per document; distinct = distinct "
@@ -323,8 +337,10 @@ def check(run):
                    "which node classes count as section/list/item/table/row/cell/pre/ref/link, Strong/Emphasized as leaf attributes, "
                    "Paragraph nodes transparent)",
                    "hand-written Gallina models of the section builder, ParseLines.analyze and compute_path (coq/C01, coq/C02)"]
-    run.assumptions = ["only well-formed constructs of the grammar; apostrophe runs never adjacent; no newline inside list items, "
-                       "headings or one-line cells; ';' lines without ':'; every table row introduced by |-",
+    run.assumptions = ["only well-formed constructs of the grammar; apostrophe runs adjacent only as the runs of five of a span touching the edge "
+                       "of its enclosing span; no newline inside list items, headings or one-line cells; a colon in a list line only as "
+                       "the separator of a one-line definition item, and the line after such an item does not extend its prefix; every "
+                       "table row introduced by |-",
                        "paragraph nodes are compared only for paragraphs directly in a section body (mwlib also wraps lists and "
                        "preformatted blocks into Paragraph nodes, which the property does not speak about)"]
     src = core.snapshot()
